@@ -379,7 +379,7 @@ def check_fresh_provider(cx, f):
     lp = loops[0].node
     cond = lp.get('cond')
     if cond is None:
-        return False
+        return _fresh_provider_loop_break(cx, f, fw, tm, loops[0])
     r = exists_param_named(cx, fw, cond, 0, loops[0].scope)
     if r is None:
         return False
@@ -401,6 +401,49 @@ def check_fresh_provider(cx, f):
         return False
     tt = tm.term(fw.tail, tm.scope_of_node(fw.tail) or fw.root)
     return any(x == cand for x in subterms(tt))
+
+
+def _fresh_provider_loop_break(cx, f, fw, tm, lev):
+    """`loop { let cand = F(state); if !<some type/const parameter is called cand> { break cand; } <state grows>; }` as the value of
+    the function: the candidate is recomputed from the state in every iteration, returned only when no parameter has that name,
+    and the state grows otherwise"""
+    from ..terms import subterms
+    lid = lev.entry['id']
+    if fw.tail is not lev.node:
+        return False
+    inside = [e for e in fw.events if any(c_.get('id') == lid for c_ in e.ctx)]
+    found = None
+    for e in inside:
+        if e.kind == 'branch' and e.pos['k'] == 'if':
+            c = e.node['cond']
+            while c['k'] == 'Paren':
+                c = c['expr']
+            if c['k'] == 'Unary' and c['op'] == '!':
+                r = exists_param_named(cx, fw, c['expr'], 0, e.scope)
+                if r is not None and {'Type', 'Const'} <= r[0]:
+                    found = (e, r[1])
+    if found is None:
+        return False
+    bev, cand = found
+    brk = [e for e in inside if e.kind == 'exit' and e.how == 'break' and any(c_.get('id') == bev.pos['id'] and c_.get('pol') and not c_.get('prior') for c_ in e.ctx)]
+    if len(brk) != 1 or brk[0].value is None or tm.term(brk[0].value, brk[0].scope) != cand:
+        return False
+    # every other way out of the loop is forbidden
+    if [e for e in inside if e.kind == 'exit' and e.how in ('break', 'return') and e is not brk[0]]:
+        return False
+    states = [x for x in subterms(cand) if isinstance(x, tuple) and x and x[0] == 'var']
+    grown = False
+    for x in states:
+        d = tm.def_by_id(x[1])
+        if d is None or any(c_.get('id') == lid for c_ in d.ctx):
+            continue
+        for a in d.assigns:
+            if getattr(a, 'compound', False) and any(c_.get('id') == lid for c_ in a.ctx) and a.seq > bev.seq:
+                grown = True
+        for e in inside:
+            if e.kind == 'mcall' and e.method in ('push', 'push_str') and tm.term(e.recv, e.scope) == x and e.seq > bev.seq:
+                grown = True
+    return grown
 
 
 def derived_binder_formats(cx, fn):
